@@ -47,6 +47,11 @@ abbrev usize_mul (a b : Nat) : Nat := a * b
 abbrev usize_div (a b : Nat) : Nat := a / b
 abbrev usize_rem (a b : Nat) : Nat := a % b
 abbrev usize_lt (a b : Nat) : Bool := decide (a < b)
+abbrev usize_le (a b : Nat) : Bool := decide (a ≤ b)
+abbrev usize_gt (a b : Nat) : Bool := decide (a > b)
+abbrev usize_ge (a b : Nat) : Bool := decide (a ≥ b)
+abbrev usize_eq (a b : Nat) : Bool := decide (a = b)
+abbrev usize_ne (a b : Nat) : Bool := decide (a ≠ b)
 abbrev usize_checked_mul (a b : Nat) : Option Nat := if a * b ≤ Raw.usizeMax then some (a * b) else none
 abbrev usize_saturating_add (a b : Nat) : Nat := if a + b ≤ Raw.usizeMax then a + b else Raw.usizeMax
 abbrev usize_saturating_mul (a b : Nat) : Nat := if a * b ≤ Raw.usizeMax then a * b else Raw.usizeMax
